@@ -47,8 +47,11 @@ def rec_all_ers(rng=None, ns=NS, order=None):
     return op
 
 
-def kubelet(mode="all", part=0):
-    return {"op": "kubelet", "cmd": mode, "seconds": part}
+def kubelet(mode="all", part=0, only=None):
+    op = {"op": "kubelet", "cmd": mode, "seconds": part}
+    if only:
+        op["kind"] = only       # "canary": only the pods carrying the canary label
+    return op
 
 
 def edit(kind, ns, name, what):
